@@ -23,6 +23,7 @@ RULE = (
     "is a key of the pickle, every other selected site entered once; restart value == reference (== caching run's "
     "value on shared outputs); restart with cache_deps_of=[n] enters exactly n. non-trivial = the file holds at "
     "least one and not all function sites."
+    " Round 8-9 additions: restart called with other arguments than the caching run (sites flagged by a DAG parameter are re-decided); a result that cannot be pickled (a caching run that raises promises nothing)."
 )
 ASSUMPTIONS = ["the restart uses the same program and the same arguments as the caching run, or (defaulted parameter) no arguments: the inputs of the caching run are in the file"]
 BUDGET = {"quick": {"shards": 8, "seconds": 40}, "thorough": {"shards": 16, "seconds": 420}}
